@@ -84,7 +84,7 @@ Lower(t) ==
          [] op = "first" -> D("reduce", <<lt1>>, "first", 0, <<>>, <<"scan", "flat_map", "reduce">>, k)
          \* first().is_none(): map -> (Optional::into_singleton) -> map
          [] op = "is_empty" -> S("is_empty", <<"scan", "flat_map", "reduce", "map", "map", "chain_first_n",
-                                              "source_iter", "persist", "map", "map">>)
+                                              "source_iter", "persist", "map">>)
          \* both sides unbounded: symmetric join, replayed every tick, hence multiset_delta at top level
          [] op \in {"join", "cross_product"} ->
               LET rightBounded == IsTick(t.in[2]) \/ IsBoundedTop(t.in[2])
@@ -116,7 +116,8 @@ Lower(t) ==
          \* snapshot -> entries().count() inside a tick -> latest
          [] op = "key_count" -> D("fold", <<"tick">>, "cnt", 0, <<>>, <<"fold">>, k)
          [] op = "get_max_key" -> D("reduce", <<lt1>>, "maxkey", 0, <<>>, <<"reduce">>, k)
-         [] op = "repeat_with_keys" -> S("repeat_with_keys", <<"map", "cross_join_multiset">>)
+         \* keys() is a map; cross_product_nested_loop reads the stream through a handoff reference
+         [] op = "repeat_with_keys" -> S("repeat_with_keys", <<"map">>)
 
 -----------------------------------------------------------------------------
 \* operator state: a tree mirroring the DFIR term
